@@ -1463,6 +1463,8 @@ class AliasInliner:
         for _, v, rhs, d in cands:
             rhs_names = {m.id for m in ast.walk(rhs) if isinstance(m, ast.Name)}
             rhs_attrs = {m.attr for m in ast.walk(rhs) if isinstance(m, ast.Attribute)}
+            for a_ in list(rhs_attrs):
+                rhs_attrs |= self.may_write.get("<prop>" + a_, set())  # a property reads the fields behind it
             has_sub = any(isinstance(m, ast.Subscript) for m in ast.walk(rhs))
             own_targets = {m.id for c in ast.walk(rhs) if isinstance(c, ast.comprehension) for m in ast.walk(c.target) if isinstance(m, ast.Name)}
             rhs_names -= own_targets
@@ -2664,9 +2666,20 @@ def may_write_table(modules: Dict[str, ast.Module]) -> Dict[str, Set[str]]:
                     direct[f] |= direct[c]
                     changed = True
     init = direct.get("__init__", set())
-    for f in list(direct):
-        pass
     direct["<ctor>"] = init
+    # attribute names that are properties: what reading them reads (`x.children` reads `x._children`), closed under nesting
+    preads: Dict[str, Set[str]] = {}
+    for tree in modules.values():
+        for fn, cls, q in _all_functions(tree):
+            decs = {(x.id if isinstance(x, ast.Name) else getattr(x, "attr", "")) for x in fn.decorator_list}
+            if decs & {"property", "cached_property"}:
+                preads.setdefault(fn.name, set()).update(n.attr for n in ast.walk(fn) if isinstance(n, ast.Attribute) and isinstance(n.ctx, ast.Load))
+    for _ in range(4):
+        for k, v in preads.items():
+            for a in list(v):
+                v |= preads.get(a, set())
+    for k, v in preads.items():
+        direct["<prop>" + k] = v
     return direct
 
 
@@ -2879,6 +2892,9 @@ def canonicalise(modules: Dict[str, ast.Module], known_funcs: Optional[Set[str]]
         new_ids: Set[int] = set()
         for mod, lst in funcs.items():
             for fn, cls, q in lst:
+                if any((d_.id if isinstance(d_, ast.Name) else getattr(d_, "attr", getattr(getattr(d_, "func", None), "id", getattr(getattr(d_, "func", None), "attr", "?")))) not in ("staticmethod", "classmethod")
+                       for d_ in fn.decorator_list):
+                    continue  # a decorated helper is not its body (lru_cache, contextmanager, property ...)
                 if f"{mod}:{q}" not in known_funcs and not (fn.name.startswith("__") and fn.name.endswith("__")) and (fn.name.startswith("_") or cls is not None):
                     # a new private helper - or a new public method that a function of the reference tree now delegates
                     # to (it stays in the model as a function of its own; only private helpers are dropped when dead)
